@@ -203,10 +203,15 @@ def _alt_family():
     return st.tuples(bcj, main).map(lambda t: [x for x in t if x is not None])
 
 
+PW_UNNORMALISED = ["re\u0301sume\u0301-42", "\u212bngstro\u0308m", "\ufb01nal", "\u1e9b\u0323", "A\u030a"]
+
+
 def filter_chains(allow_aes=True, allow_default=True):
     """returns dict(filters=list|None, password=str|None)"""
     base = st.one_of(_lzma_family(), _alt_family())
-    pw = st.one_of(st.just("secret"), st.text(min_size=0, max_size=8).filter(lambda s: "\x00" not in s or True))
+    # passwords that are not in Unicode normal form (combining accent, Angstrom sign, compatibility ligature): the key is derived
+    # from the UTF-16 code units as typed, whatever a normaliser would make of them
+    pw = st.one_of(st.just("secret"), st.sampled_from(PW_UNNORMALISED), st.text(min_size=0, max_size=8).filter(lambda s: "\x00" not in s or True))
     plain = base.map(lambda f: {"filters": f, "password": None})
     opts = [plain, plain]
     if allow_aes:
